@@ -829,7 +829,7 @@ def gen_world(rng, family):
                 return fd
     if pids:
         for s in socks:
-            k = rng.choice([0, 0, 1, 1, 1, 2, 2, 3]) if family != "shared" else rng.choice([2, 3, 4])
+            k = rng.choice([0, 0, 1, 1, 1, 2, 2, 3]) if family not in ("shared", "consist") else rng.choice([1, 2, 3, 4])
             if s["inode"] == 0:
                 k = 0                                               # nobody can hold `socket:[0]`
             for _ in range(k):
@@ -889,8 +889,16 @@ def gen_queries(rng, world, n=3, family=None):
     """Every query is made in one call mode drawn at random (plain call, oneshot() fresh / warm, as_dict(),
     the object process_iter() yields, a second call, the deprecated alias; system-wide: while oneshot() blocks
     are open). No mode may change the answer: the model side does not know the mode."""
-    qs = [{"kind": "all", "pid": None}]
     listable = [p for p, f in world["procs"] if isinstance(f, list)]
+    if family == "consist":
+        # one kind, asked system-wide and of every process whose descriptors can be listed: the answers are also
+        # compared with each other (check_consistency)
+        kind = rng.choice(KINDS)
+        qs = [{"kind": kind, "pid": None}] + [{"kind": kind, "pid": p} for p in listable]
+        for q in qs:
+            q["modes"] = [rng.choice(modes_for(q))]
+        return qs
+    qs = [{"kind": "all", "pid": None}]
     faulty = family in ("faults", "fatal", "listerr")
     anyproc = [p for p, f in world["procs"] if f is not None] if faulty else listable
     for _ in range(n - 1):
@@ -1183,6 +1191,59 @@ def run_worlds(ctx, impl, items, res, tag_prefix=""):
                 if not compare(im, mo):
                     res.disagree("model", inp, im, mo, sp, note="implementation differs from the Lean model [call mode: %s]%s" % (
                         mode, "" if sp["kind"] == "unspecified" else " (both satisfy the specification)"))
+            if world.get("ntop6") and q["pid"] is not None and sp["kind"] == "expects":
+                res.count("nov6:per-process query against the promise for dropV6 (C11_noipv6_rows_process)")
+        if tag in ("consist", "corpus"):
+            check_consistency(world, listed, queries, outs, res, tag)
+
+
+def check_consistency(world, listed, queries, outs, res, tag):
+    """System-wide vs per-process answers of the REAL code for one kind (theorems C11_system_rows_in_process,
+    C11_process_rows_in_system, C11_inet_first_holder): every system-wide row with pid p is, pid removed, a row of
+    Process(p); every row of Process(p) is, with pid p, a system-wide row — unless it is a TCP/UDP socket whose first
+    holder in listing order is another process (then the system-wide list shows it under that process)."""
+    holders = {}                                  # inode -> [(pid, fd)…] in listing order
+    target = {}
+    for pid, fds in listed:
+        if not isinstance(fds, list):
+            continue
+        for fd, t in fds:
+            if t and "s" in t:
+                holders.setdefault(t["s"], []).append((pid, fd))
+                target[(pid, fd)] = t["s"]
+    sysrows = {}
+    for q, ims in zip(queries, outs):
+        if q["pid"] is None and ims[0][1].get("kind") == "rows":
+            sysrows[q["kind"]] = ims[0][1]["rows"]
+    for q, ims in zip(queries, outs):
+        p = q["pid"]
+        if p is None or q["kind"] not in sysrows or ims[0][1].get("kind") != "rows":
+            continue
+        mode, im = ims[0]
+        rows_p = im["rows"]
+        rows_s = sysrows[q["kind"]]
+        res.count("consist:pairs (system-wide, process) of one kind")
+        keys_p = {_rowkey(r) for r in rows_p}
+        keys_s = {_rowkey(r) for r in rows_s}
+        inp = {"world": dict(world, procs=listed), "query": dict(q, modes=[mode]), "source": tag}
+        for r in rows_s:
+            if r["pid"] == p:
+                res.count("consist:system-wide rows carrying the pid")
+                if _rowkey(dict(r, pid=None)) not in keys_p:
+                    res.disagree("model", inp, im, {"kind": "rows", "rows": rows_s}, None,
+                                 note="system-wide row %s is not returned by Process(%d).net_connections(%r)" % (
+                                     json.dumps(r, sort_keys=True), p, q["kind"]))
+        for r in rows_p:
+            res.count("consist:per-process rows")
+            if _rowkey(dict(r, pid=p)) in keys_s:
+                continue
+            first = holders.get(target.get((p, r["fd"])), [(None, None)])[0]
+            if r["family"] != socket.AF_UNIX and first[0] not in (None, p):
+                res.count("consist:inet socket shown system-wide under an earlier holder")
+                continue
+            res.disagree("model", inp, im, {"kind": "rows", "rows": rows_s}, None,
+                         note="row %s of Process(%d) has no system-wide counterpart with pid %d (first holder: %s)" % (
+                             json.dumps(r, sort_keys=True), p, p, list(first)))
 
 
 def _raw_link(t):
@@ -1216,7 +1277,7 @@ def run_raw(ctx, impl, items, res):
 
 
 FAMILIES = ["mixed", "unix_paths", "addresses", "shared", "twins", "ownerless", "faults", "big",
-            "mixed", "nov6", "listerr", "fatal"]
+            "mixed", "nov6", "listerr", "fatal", "consist"]
 
 CORPUS = [
     # L11: UNIX socket bound to a path containing a blank
@@ -1240,6 +1301,11 @@ CORPUS = [
               [{"fam": "inet4", "typ": 1, "lip": "7f000001", "lport": 8080, "rip": "7f000001", "rport": 40000 + i, "state": 6,
                 "path": None, "inode": 0, "txq": 0, "rxq": 0, "uid": 0, "refcnt": 2, "flags": 0} for i in range(3)],
      "procs": [[100, [[3, {"s": 3001}]]]], "v6": True},
+    # worldFork (C11_sys_proc_shared_inet_counterexample, C11_inet_first_holder): a listening TCP socket held by two
+    # processes after fork(); whichever is listed first is the one the system-wide list shows
+    {"socks": [{"fam": "inet4", "typ": 1, "lip": "7f000001", "lport": 80, "rip": "00000000", "rport": 0, "state": 10,
+                "path": None, "inode": 7, "txq": 0, "rxq": 0, "uid": 0, "refcnt": 2, "flags": 0}],
+     "procs": [[10, [[3, {"s": 7}]]], [20, [[5, {"s": 7}]]]], "v6": True},
 ]
 
 
@@ -1247,7 +1313,7 @@ def correspond(ctx, res):
     impl = Impl(ctx)
     rng = ctx.rng
     try:
-        res.rule = ("(world, query, call mode) triples: worlds = random socket tables + descriptor tables from 11 clause-directed "
+        res.rule = ("(world, query, call mode) triples: worlds = random socket tables + descriptor tables from 12 clause-directed "
                     "families (PRNG from VERIF_SEED; incl. failing readlink/listdir by errno class and a Python without IPv6 "
                     "text support), corpus witnesses in every call mode, exhaustive kind x caller x mode sweeps, and a "
                     "malformed-file stream; non-trivial = the specification promises at least one row or an exception; "
@@ -1257,6 +1323,7 @@ def correspond(ctx, res):
             p0 = w["procs"][0][0]
             cq = [{"kind": "all", "pid": None}, {"kind": "unix", "pid": p0}, {"kind": "all", "pid": p0},
                   {"kind": "inet", "pid": None}, {"kind": "inet", "pid": p0}]
+            cq += [{"kind": k, "pid": p} for k in ("all", "inet") for p, _ in w["procs"][1:]]
             for q in cq:
                 q["modes"] = modes_for(q)              # the witnesses are replayed in every call mode
             items.append(("corpus", w, cq))
